@@ -197,6 +197,92 @@ def check_adjust_axis(ctx, table):
            msg="legend size/location handling changed")
 
 
+def check_tight_crop(ctx):
+    """-left/-right/-top/-bottom: the saved figure is cropped to its content (bbox_inches='tight', which discards the requested margins
+    and the -fs x -dpi pixel size) exactly when NONE of the four margins was given.  The condition under which savefig receives
+    bbox_inches='tight' is compared by truth table with `top is None and bottom is None and right is None and left is None`."""
+    from .. import boolq, symeval
+    prog = ctx.prog
+    site = "verif.output.Output._save_plot"
+    m = prog.module("verif.output")
+    ev = trace.trace(prog, site, merge=False)
+    tight, plain = [], []
+    for e in trace.calls(ev):
+        if not (e["name"] or "").endswith("savefig"):
+            continue
+        bb = e["kwargs"].get("bbox_inches")
+        (tight if isinstance(bb, Rat) and "tight" in bb.key() else plain).append(e)
+    ctx.need(tight or plain, "%s: no savefig call found" % site)
+    probe = symeval.Evaluator(m)
+    want = probe.ev(ast.parse("self.top is None and self.bottom is None and self.right is None and self.left is None", mode="eval").body,
+                    symeval.Path({"self." + k: Rat.sym("self." + k) for k in ("top", "bottom", "right", "left")}, []))
+    has_file = probe.ev(ast.parse("self.filename is not None", mode="eval").body, symeval.Path({"self.filename": Rat.sym("self.filename")}, []))
+    f_want = boolq.prop(form.apply("and", [has_file, want]))
+    f_got = boolq.disj(boolq.conj(e["conds"]) for e in tight)
+    known = set(boolq.atoms_of(f_want))
+    foreign = [a for a in boolq.atoms_of(f_got) if a not in known and any(("$self." + k) in a for k in ("top", "bottom", "right", "left"))]
+    if foreign:
+        # the margins are tested in a form the truth table cannot interpret (all(...), a helper): not decided rather than guessed
+        ctx.undecided_item("C17.3", site, "the tight-cropping condition tests the margins through %s" % foreign[0][:80])
+        return
+    try:
+        w = boolq.differ(f_got, f_want, limit=14)
+        ok, why = w is None, ("" if w is None else "e.g. with " + boolq.show(w))
+    except boolq.TooBig as e_:
+        ok, why = False, "condition too large to compare (%s)" % e_
+    loc = prog.loc(m, (tight or plain)[0]["node"])
+    ctx.ob("C17.3", site, ok, "the figure is cropped to its content (bbox_inches='tight') exactly when none of -left/-right/-top/-bottom is given", loc=loc,
+           msg="savefig crops the figure (bbox_inches='tight') under a different condition than 'no margin option given': a requested margin "
+               "is cropped away and the image loses its -fs x -dpi size, or an unrequested one is kept; %s" % why,
+           sample={"rule": "C17.3", "tight_calls": len(tight), "plain_calls": len(plain)})
+
+
+def check_zero_or_none(ctx):
+    """Metric attributes that can legitimately be 0 AND can be None (perfect_score, min, max: read from the class constants of
+    verif.metric) must be tested with `is None`; a truthiness test (`if perfect_score:`) treats 0 as "not defined" - -sp then draws no
+    line for every metric whose perfect score is 0 (mae, rmse, bias, ...), axis limits at 0 are ignored."""
+    prog = ctx.prog
+    values = {}
+    for c in prog.classes_in("verif.metric"):
+        for st in c.node.body:
+            if isinstance(st, ast.Assign) and len(st.targets) == 1 and isinstance(st.targets[0], ast.Name) and isinstance(st.value, ast.Constant):
+                values.setdefault(st.targets[0].id, set()).add(repr(st.value.value))
+    attrs = sorted(a for a, v in values.items() if "None" in v and ("0" in v or "0.0" in v))
+    ctx.need("perfect_score" in attrs, "verif.metric: perfect_score is no longer declared with both None and 0 among its values")
+
+    def truthiness_sites(tree, attrs_):
+        names = set()
+        for n in ast.walk(tree):
+            if isinstance(n, ast.Assign) and len(n.targets) == 1 and isinstance(n.targets[0], ast.Name) and isinstance(n.value, ast.Attribute) and n.value.attr in attrs_:
+                names.add(n.targets[0].id)
+
+        def is_subject(x):
+            return (isinstance(x, ast.Attribute) and x.attr in attrs_) or (isinstance(x, ast.Name) and x.id in names)
+        out = []
+        for n in ast.walk(tree):
+            tests = []
+            if isinstance(n, (ast.If, ast.IfExp, ast.While, ast.Assert)):
+                tests.append(n.test)
+            elif isinstance(n, ast.BoolOp):
+                tests.extend(n.values)
+            elif isinstance(n, ast.UnaryOp) and isinstance(n.op, ast.Not):
+                tests.append(n.operand)
+            for t in tests:
+                if is_subject(t):
+                    out.append((t, t.attr if isinstance(t, ast.Attribute) else t.id))
+        return out
+    ctx.control("C17.4", len(truthiness_sites(ast.parse("ps = m.perfect_score\nif ps:\n    pass\nx = 1 if not m.min else 2\nwhile a and m.perfect_score:\n    pass\n"), attrs)) == 3,
+                "truthiness tests of a zero-or-None attribute (if / not / and) are recognised")
+    n = 0
+    for qual, m, c, f in prog.all_functions():
+        for t, nm in truthiness_sites(f, attrs):
+            n += 1
+            ctx.ob("C17.4", qual, False, "zero-or-None metric attributes are tested with `is None`", loc=prog.loc(m, t),
+                   msg="`%s` is tested by truthiness, but 0 is a legitimate value of %s (declared values in verif.metric: %s): the value 0 is treated as "
+                       "'not defined' (-sp draws nothing for metrics whose perfect score is 0)" % (norm(t), nm, sorted(values.get(nm, values.get("perfect_score")))))
+    ctx.ob("C17.4", "verif", True, "no truthiness test of %s anywhere in the program (%d found)" % ("/".join(attrs), n), nontrivial=False)
+
+
 def run(ctx):
     ctx.rule("C17.1", "appearance option -> driver variable -> attribute initialised and READ -> matplotlib call/keyword")
     ctx.rule("C17.2", "guard/use agreement inside _adjust_axis; style lists cycled modulo their own length")
@@ -205,6 +291,9 @@ def run(ctx):
     c13.check_options(ctx, "appearance", "C17.1", opts["appearance"])
     check_attributes(ctx, opts["appearance"], {k: v for k, v in opts["matplotlib_sinks"].items() if not k.startswith("_")})
     check_adjust_axis(ctx, opts["appearance"])
+    ctx.rule("C17.4", "metric attributes that may be 0 or None (perfect_score, min, max) are never tested by truthiness")
+    check_tight_crop(ctx)
+    check_zero_or_none(ctx)
     ctx.floor("C17.1", 250)
 
 
@@ -216,5 +305,6 @@ CLAIM = {
     "note": "Trusted: CPython ast, /verif/tables/options.json (semantic sinks by public matplotlib API names). Not decided: pixels, fonts, image "
             "format, options of individual diagrams beyond the shared machinery.",
     "technique": "static analysis: def-use chain from option branch to attribute store to attribute load to call argument; guard/use "
-                 "contradiction rule; modulo-own-length rule; who-may-call (pyplot state functions inside _adjust_axis = 0)",
+                 "contradiction rule; modulo-own-length rule; who-may-call (pyplot state functions inside _adjust_axis = 0); truth-table comparison "
+                 "of the tight-cropping condition; truthiness lint on zero-or-None metric attributes",
 }
